@@ -56,6 +56,11 @@ def gen_refval(rng, targets, depth=0):
   keys = [1, {'s': 'k'}]
   if rng.random() < 0.3:
     keys.append(gen_ref(rng, targets, 1.0))
+  if rng.random() < 0.2:
+    # two references to one configurable that differ in their scope only: two keys, two calls
+    t = rng.choice(targets)
+    keys = [{'ref': [['a'], t, True]}, {'ref': [['c', 'b'], t, True]}, 1]
+    n = max(n, 2)
   from encode import canon
   keys = sorted(keys[:n], key=canon)
   return {'d': [[kk, gen_refval(rng, targets, depth + 1)] for kk in keys]}
